@@ -2,6 +2,7 @@ import Generated.LeafFns
 import Econf.Lemmas.MiniCLemmas
 import Econf.KeyFileOps
 import Econf.Writer
+import Econf.Parser
 
 /-!
   # The string helpers of lib/, as translated from the C source on this run
@@ -774,5 +775,254 @@ theorem C_ltrim (m : Mem) (b : Nat) (s : List UInt8) (h : MemBytes m b (s ++ [0]
   have := ltrim_exec m b s h 0 (Nat.zero_le _) fuel hf
   rw [hf']
   simpa [span] using this
+
+/-- number of rounds of `check_delim`'s loop: up to the first position where both kinds of byte have been seen -/
+def stopIdx : List UInt8 → Bool → Bool → Nat
+  | [], _, _ => 0
+  | c :: cs, w, n => if w && n then 0 else 1 + stopIdx cs (w || spc c) (n || !spc c)
+
+def anyW (l : List UInt8) : Bool := l.any spc
+def anyN (l : List UInt8) : Bool := l.any (fun c => !spc c)
+
+theorem stopIdx_le : ∀ (l : List UInt8) (w n : Bool), stopIdx l w n ≤ l.length
+  | [], _, _ => by simp [stopIdx]
+  | c :: cs, w, n => by
+    simp only [stopIdx]
+    split
+    · simp
+    · have := stopIdx_le cs (w || spc c) (n || !spc c); simp; omega
+
+/-- before the stop index not both flags are set -/
+theorem stopIdx_before : ∀ (l : List UInt8) (w n : Bool) (i : Nat), i < stopIdx l w n →
+    ¬ ((w || anyW (l.take i)) = true ∧ (n || anyN (l.take i)) = true)
+  | [], w, n, i, h => by simp [stopIdx] at h
+  | c :: cs, w, n, i, h => by
+    simp only [stopIdx] at h
+    split at h
+    · omega
+    · rename_i hwn
+      cases i with
+      | zero => simpa [anyW, anyN] using hwn
+      | succ i =>
+        have := stopIdx_before cs (w || spc c) (n || !spc c) i (by omega)
+        simpa [anyW, anyN, List.take_succ_cons, List.any_cons, Bool.or_assoc] using this
+
+/-- at the stop index the string is used up or both flags are set; in both cases the flags have their final values -/
+theorem stopIdx_at : ∀ (l : List UInt8) (w n : Bool),
+    (stopIdx l w n = l.length ∨ ((w || anyW (l.take (stopIdx l w n))) = true ∧ (n || anyN (l.take (stopIdx l w n))) = true)) ∧
+    (w || anyW (l.take (stopIdx l w n))) = (w || anyW l) ∧ (n || anyN (l.take (stopIdx l w n))) = (n || anyN l)
+  | [], w, n => by simp [stopIdx, anyW, anyN]
+  | c :: cs, w, n => by
+    simp only [stopIdx]
+    split
+    · rename_i hwn
+      simp only [Bool.and_eq_true] at hwn
+      simp [hwn.1, hwn.2, anyW, anyN]
+    · have ih := stopIdx_at cs (w || spc c) (n || !spc c)
+      have e : 1 + stopIdx cs (w || spc c) (n || !spc c) = stopIdx cs (w || spc c) (n || !spc c) + 1 := by omega
+      rw [e]
+      simp only [List.take_succ_cons, List.length_cons, anyW, anyN, List.any_cons] at ih ⊢
+      refine ⟨?_, ?_, ?_⟩
+      · rcases ih.1 with h | h
+        · left; omega
+        · right; simpa [Bool.or_assoc] using h
+      · simpa [Bool.or_assoc] using ih.2.1
+      · simpa [Bool.or_assoc] using ih.2.2
+
+def b2u (f : Bool) : UInt8 := if f then 1 else 0
+
+theorem load_flag {m : Mem} {b : Nat} {f : Bool} (h : MemBytes m b [b2u f]) : m.load8 b 0 = .ok (if f then 1 else 0) := by
+  have := h.load8 0 (by simp)
+  simp only [Int.natCast_zero, List.getElem_cons_zero] at this
+  rw [this]
+  cases f <;> simp [b2u, sch_eq]
+
+theorem wrapTo_i32_u32_sch (c : UInt8) : wrapTo .i32 (wrapTo .u32 (sch c)) = sch c := by
+  have hr := sch_range c
+  simp only [wrapTo, Ty.bits, Ty.signed, show (Ty.u32 == Ty.bool) = false from rfl, show (Ty.i32 == Ty.bool) = false from rfl,
+    Bool.false_eq_true, if_false, Bool.false_and, Bool.true_and]
+  have hp : ((2 : Int) ^ 32) = 4294967296 := by decide
+  simp only [hp]
+  by_cases hn : 0 ≤ sch c
+  · have e1 : sch c % 4294967296 = sch c := Int.emod_eq_of_lt hn (by omega)
+    rw [e1, e1]; simp; omega
+  · have e1 : sch c % 4294967296 = sch c + 4294967296 := by
+      have h3 : (sch c + 4294967296) % 4294967296 = sch c + 4294967296 := Int.emod_eq_of_lt (by omega) (by omega)
+      rw [← h3]; simp
+    have e2 : (sch c + 4294967296) % 4294967296 = sch c + 4294967296 := Int.emod_eq_of_lt (by omega) (by omega)
+    rw [e1, e2]; simp; omega
+
+theorem byteOf_zero : byteOf 0 = 0 := by decide
+theorem byteOf_one : byteOf 1 = 1 := by decide
+
+theorem anyW_take_succ (s : List UInt8) (i : Nat) (hi : i < s.length) : anyW (s.take (i + 1)) = (anyW (s.take i) || spc s[i]) := by
+  rw [List.take_succ_eq_append_getElem hi]; simp only [anyW, List.any_append, List.any_cons, List.any_nil, Bool.or_false]
+theorem anyN_take_succ (s : List UInt8) (i : Nat) (hi : i < s.length) : anyN (s.take (i + 1)) = (anyN (s.take i) || !spc s[i]) := by
+  rw [List.take_succ_eq_append_getElem hi]; simp only [anyN, List.any_append, List.any_cons, List.any_nil, Bool.or_false]
+
+theorem cd_test (m : Mem) (bs bw bn : Nat) (i : Int) (v : Int) (W N : Bool) (l0 : Val)
+    (h1 : m.load8 bs i = .ok v) (hv : -128 ≤ v ∧ v < 128)
+    (h2 : m.load8 bw 0 = .ok (if W then 1 else 0)) (h3 : m.load8 bn 0 = .ok (if N then 1 else 0)) :
+    testOf (some (.land (.cast .i32 (.load (.deref (.load (.var 3) .ptr)) .i8)) (.un .lnot
+        (.land (.cast .i32 (.load (.deref (.load (.var 1) .ptr)) .bool)) (.cast .i32 (.load (.deref (.load (.var 2) .ptr)) .bool))) .i32)))
+        { mem := m, loc := [l0, .ptr bw 0, .ptr bn 0, .ptr bs i] } =
+      .ok (decide (v ≠ 0) && !(W && N), { mem := m, loc := [l0, .ptr bw 0, .ptr bn 0, .ptr bs i] }) := by
+  have hw32 : wrapTo .i32 v = v := wrapTo_i32 v (by omega) (by omega)
+  have w0 : wrapTo .i32 0 = 0 := wrapTo_i32 0 (by decide) (by decide)
+  have w1 : wrapTo .i32 1 = 1 := wrapTo_i32 1 (by decide) (by decide)
+  have b0 : wrapTo .bool 0 = 0 := by simp [wrapTo]
+  have b1 : wrapTo .bool 1 = 1 := by simp [wrapTo]
+  by_cases hz : v = 0
+  · subst hz
+    simp [testOf, evalE, evalL, readPlace, bind, Except.bind, Except.map, h1, convert, w0, truth, boolVal]
+  · cases W <;> cases N <;>
+      simp [testOf, evalE, evalL, readPlace, bind, Except.bind, Except.map, h1, h2, h3, convert, hw32, hz, truth, boolVal, unop, w0, w1, b0, b1]
+
+theorem check_delim_exec (m : Mem) (bs bw bn : Nat) (s : List UInt8) (h : MemBytes m bs (s ++ [0])) (hs : (0 : UInt8) ∉ s)
+    (hw : MemCell m bw) (hn : MemCell m bn) (d1 : bs ≠ bw) (d2 : bs ≠ bn) (d3 : bw ≠ bn) (fuel : Nat) (hf : s.length < fuel) :
+    ∃ m' loc', exec fuel LeafFns.check_delim.body { mem := m, loc := [.ptr bs 0, .ptr bw 0, .ptr bn 0, .undef] } =
+        .normal { mem := m', loc := loc' } ∧
+      MemBytes m' bw [b2u (s.any spc)] ∧ MemBytes m' bn [b2u (s.any (fun c => !spc c))] ∧ MemBytes m' bs (s ++ [0]) ∧
+      m'.length = m.length ∧ ∀ b', b' ≠ bw → b' ≠ bn → m'[b']? = m[b']? := by
+  -- the two flags are cleared
+  obtain ⟨m1, hst1, hm1n, hl1, ho1⟩ := hn.store 0
+  rw [byteOf_zero] at hm1n
+  have hw1 : MemCell m1 bw := by
+    obtain ⟨blk, a1, a2, a3, a4⟩ := hw
+    exact ⟨blk, by rw [ho1 bw d3]; exact a1, a2, a3, a4⟩
+  obtain ⟨m2, hst2, hm2w, hl2, ho2⟩ := hw1.store 0
+  rw [byteOf_zero] at hm2w
+  have hm2n : MemBytes m2 bn [b2u false] := hm1n.frame ho2 (Ne.symm d3)
+  have hm2s : MemBytes m2 bs (s ++ [0]) := (h.frame ho1 d2).frame ho2 d1
+  have hclr : exec fuel (.expr (.assign (.deref (.load (.var 1) .ptr)) (.assign (.deref (.load (.var 2) .ptr)) (.cast .bool (.lit 0 .i32)) .bool) .bool))
+      { mem := m, loc := [.ptr bs 0, .ptr bw 0, .ptr bn 0, .undef] } = .normal { mem := m2, loc := [.ptr bs 0, .ptr bw 0, .ptr bn 0, .undef] } := by
+    simp [exec, evalE, evalL, readPlace, writePlace, convert, bind, Except.bind, Except.map, wrapTo, hst1, hst2, Ty.bits]
+  have hnull : exec fuel (.ite (.bin .eq (.load (.var 0) .ptr) .null .i32) (.ret none) .skip)
+      { mem := m2, loc := [.ptr bs 0, .ptr bw 0, .ptr bn 0, .undef] } = .normal { mem := m2, loc := [.ptr bs 0, .ptr bw 0, .ptr bn 0, .undef] } := by
+    simp [exec, testOf, evalE, evalL, readPlace, binop, boolVal, truth, bind, Except.bind]
+  have hinit : exec fuel (.expr (.assign (.var 3) (.load (.var 0) .ptr) .ptr))
+      { mem := m2, loc := [.ptr bs 0, .ptr bw 0, .ptr bn 0, .undef] } = .normal { mem := m2, loc := [.ptr bs 0, .ptr bw 0, .ptr bn 0, .ptr bs 0] } := by
+    simp [exec, evalE, evalL, readPlace, writePlace, convert, bind, Except.bind]
+  simp only [LeafFns.check_delim]
+  rw [exec_seq_normal hclr, exec_seq_normal hnull, exec_seq_normal hinit, exec_for]
+  have hstop := stopIdx_le s false false
+  have hloop := loop_inv
+    (testOf (some (.land (.cast .i32 (.load (.deref (.load (.var 3) .ptr)) .i8)) (.un .lnot
+      (.land (.cast .i32 (.load (.deref (.load (.var 1) .ptr)) .bool)) (.cast .i32 (.load (.deref (.load (.var 2) .ptr)) .bool))) .i32))))
+    (exec fuel (.ite (.call "isspace" (.cons (.cast .i32 (.cast .u32 (.load (.deref (.load (.var 3) .ptr)) .i8))) .nil))
+      (.expr (.assign (.deref (.load (.var 1) .ptr)) (.cast .bool (.lit 1 .i32)) .bool))
+      (.expr (.assign (.deref (.load (.var 2) .ptr)) (.cast .bool (.lit 1 .i32)) .bool))))
+    (stepOf (some (.incdec (.var 3) true true .ptr)))
+    (fun R => MemBytes R.mem bw [b2u (s.any spc)] ∧ MemBytes R.mem bn [b2u (s.any (fun c => !spc c))] ∧ MemBytes R.mem bs (s ++ [0]) ∧
+      R.mem.length = m.length ∧ ∀ b', b' ≠ bw → b' ≠ bn → R.mem[b']? = m[b']?)
+    (stopIdx s false false)
+    (fun i st => st.loc = [.ptr bs 0, .ptr bw 0, .ptr bn 0, .ptr bs (i : Nat)] ∧ MemBytes st.mem bw [b2u (anyW (s.take i))] ∧
+      MemBytes st.mem bn [b2u (anyN (s.take i))] ∧ MemBytes st.mem bs (s ++ [0]) ∧
+      st.mem.length = m.length ∧ ∀ b', b' ≠ bw → b' ≠ bn → st.mem[b']? = m[b']?)
+    ?_ ?_ { mem := m2, loc := [.ptr bs 0, .ptr bw 0, .ptr bn 0, .ptr bs 0] } fuel
+    ⟨by simp, by simpa [anyW, b2u] using hm2w, by simpa [anyN, b2u] using hm2n, hm2s, by rw [hl2, hl1],
+      fun b' h1 h2 => by rw [ho2 b' h1, ho1 b' h2]⟩ (by omega)
+  · obtain ⟨R, hl, hR⟩ := hloop
+    obtain ⟨Rm, Rl⟩ := R
+    exact ⟨Rm, Rl, hl, hR⟩
+  · -- one round
+    intro i st hi ⟨hloc, hmw, hmn, hms, hlen, hoth⟩
+    obtain ⟨stm, stl⟩ := st
+    simp only at hloc hmw hmn hms hlen hoth
+    subst hloc
+    have hiL : i < s.length := by omega
+    have hld := hms.load8 i (by simp; omega)
+    rw [List.getElem_append_left hiL] at hld
+    have hc0 : s[i] ≠ 0 := fun h0 => hs (h0 ▸ List.getElem_mem _)
+    have hnz : sch s[i] ≠ 0 := fun h0 => hc0 ((sch_zero_iff _).1 h0)
+    have hnb := stopIdx_before s false false i hi
+    simp only [Bool.false_or] at hnb
+    have hlw := load_flag hmw
+    have hln := load_flag hmn
+    obtain ⟨blks, s1, s2, _, s3⟩ := hms.blk
+    have hcl : blks.cells.length = s.length + 1 := by rw [s3]; simp
+    have h0 : (0 : Int) ≤ (i : Int) + 1 := by omega
+    have hle : (i : Int) + 1 ≤ (blks.cells.length : Int) := by rw [hcl]; omega
+    have htk : s.take (i + 1) = s.take i ++ [s[i]] := by rw [List.take_succ_eq_append_getElem hiL]
+    have hnoteq : ¬ ((anyW (s.take i) = true) ∧ (anyN (s.take i) = true)) := hnb
+    -- the test succeeds
+    have htest := cd_test stm bs bw bn (i : Nat) (sch s[i]) (anyW (s.take i)) (anyN (s.take i)) (.ptr bs 0) hld (sch_range _) hlw hln
+    have htrue : (decide (sch s[i] ≠ 0) && !(anyW (s.take i) && anyN (s.take i))) = true := by
+      cases hW : anyW (s.take i) <;> cases hN : anyN (s.take i) <;> simp [hW, hN, hnz] at hnoteq ⊢
+    rw [htrue] at htest
+    by_cases hsp : spc s[i] = true
+    · -- a blank: `*has_wsp = true`
+      obtain ⟨m3, hst3, hm3w, hl3, ho3⟩ := hmw.toCell.store 1
+      have hnew : MemBytes m3 bw [b2u (anyW (s.take (i + 1)))] := by
+        have : anyW (s.take (i + 1)) = true := by rw [anyW_take_succ s i hiL, hsp]; simp
+        rw [this]; rw [byteOf_one] at hm3w; exact hm3w
+      have hN' : anyN (s.take (i + 1)) = anyN (s.take i) := by rw [anyN_take_succ s i hiL, hsp]; simp
+      obtain ⟨blk3, t1, t2, _, t3⟩ := (hms.frame ho3 d1).blk
+      have hcl3 : blk3.cells.length = s.length + 1 := by rw [t3]; simp
+      have hle3 : (i : Int) + 1 ≤ (blk3.cells.length : Int) := by rw [hcl3]; omega
+      refine ⟨_, { mem := m3, loc := [.ptr bs 0, .ptr bw 0, .ptr bn 0, .ptr bs (i : Nat)] },
+        { mem := m3, loc := [.ptr bs 0, .ptr bw 0, .ptr bn 0, .ptr bs (i + 1 : Nat)] }, htest, Or.inl ?_, ?_, rfl, hnew,
+        by rw [hN']; exact hmn.frame ho3 (Ne.symm d3), hms.frame ho3 d1, hl3.trans hlen,
+        fun b' h1 h2 => by rw [ho3 b' h1, hoth b' h1 h2]⟩
+      · have b1 : wrapTo .bool 1 = 1 := by simp [wrapTo]
+        have hsp2 : isSpace (sch s[i]) = true := hsp
+        simp [exec, testOf, evalE, evalL, evalArgs, readPlace, writePlace, builtin, bind, Except.bind, Except.map, hld, convert,
+          wrapTo_i32_u32_sch, truth, truth_ite, hsp2, hst3, b1, Ty.bits]
+      · simp [stepOf, evalE, evalL, readPlace, writePlace, binop, ptrAdd, Mem.block, t1, t2, h0, hle3, bind, Except.bind, Except.map, Int.natCast_add]
+    · -- not a blank: `*has_nonwsp = true`
+      have hsp' : spc s[i] = false := by simpa using hsp
+      obtain ⟨m3, hst3, hm3n, hl3, ho3⟩ := hmn.toCell.store 1
+      have hnew : MemBytes m3 bn [b2u (anyN (s.take (i + 1)))] := by
+        have : anyN (s.take (i + 1)) = true := by rw [anyN_take_succ s i hiL, hsp']; simp
+        rw [this]; rw [byteOf_one] at hm3n; exact hm3n
+      have hW' : anyW (s.take (i + 1)) = anyW (s.take i) := by rw [anyW_take_succ s i hiL, hsp']; simp
+      obtain ⟨blk3, t1, t2, _, t3⟩ := (hms.frame ho3 d2).blk
+      have hcl3 : blk3.cells.length = s.length + 1 := by rw [t3]; simp
+      have hle3 : (i : Int) + 1 ≤ (blk3.cells.length : Int) := by rw [hcl3]; omega
+      refine ⟨_, { mem := m3, loc := [.ptr bs 0, .ptr bw 0, .ptr bn 0, .ptr bs (i : Nat)] },
+        { mem := m3, loc := [.ptr bs 0, .ptr bw 0, .ptr bn 0, .ptr bs (i + 1 : Nat)] }, htest, Or.inl ?_, ?_, rfl,
+        by rw [hW']; exact hmw.frame ho3 d3, hnew, hms.frame ho3 d2, hl3.trans hlen,
+        fun b' h1 h2 => by rw [ho3 b' h2, hoth b' h1 h2]⟩
+      · have b1 : wrapTo .bool 1 = 1 := by simp [wrapTo]
+        have hsp2 : isSpace (sch s[i]) = false := hsp'
+        simp [exec, testOf, evalE, evalL, evalArgs, readPlace, writePlace, builtin, bind, Except.bind, Except.map, hld, convert,
+          wrapTo_i32_u32_sch, truth, truth_ite, hsp2, hst3, b1, Ty.bits]
+      · simp [stepOf, evalE, evalL, readPlace, writePlace, binop, ptrAdd, Mem.block, t1, t2, h0, hle3, bind, Except.bind, Except.map, Int.natCast_add]
+  · -- the end
+    intro st ⟨hloc, hmw, hmn, hms, hlen, hoth⟩
+    obtain ⟨stm, stl⟩ := st
+    simp only at hloc hmw hmn hms hlen hoth
+    subst hloc
+    obtain ⟨hor, hWf, hNf⟩ := stopIdx_at s false false
+    simp only [Bool.false_or] at hor hWf hNf
+    refine ⟨{ mem := stm, loc := [.ptr bs 0, .ptr bw 0, .ptr bn 0, .ptr bs (stopIdx s false false : Nat)] }, ?_,
+      by rw [← show anyW s = s.any spc from rfl, ← hWf]; exact hmw, by rw [← show anyN s = s.any (fun c => !spc c) from rfl, ← hNf]; exact hmn, hms, hlen, hoth⟩
+    have hlw := load_flag hmw
+    have hln := load_flag hmn
+    have hiL : stopIdx s false false ≤ s.length := hstop
+    have hld := hms.load8 (stopIdx s false false) (by simp; omega)
+    have htest := cd_test stm bs bw bn (stopIdx s false false : Nat) _ (anyW (s.take (stopIdx s false false))) (anyN (s.take (stopIdx s false false)))
+      (.ptr bs 0) hld (sch_range _) hlw hln
+    rw [htest]
+    congr 2
+    rcases hor with hL | ⟨hW, hN⟩
+    · have : (s ++ [0])[stopIdx s false false]'(by simp; omega) = 0 := by
+        rw [List.getElem_append_right (by omega)]; simp [hL]
+      rw [this]
+      have hz : sch 0 = 0 := by rw [sch_eq]; decide
+      simp [hz]
+    · simp [hW, hN]
+
+/-- `check_delim` (lib/getfilecontents.c): no fault, the string is left alone, and the two flags are the model's `hasWsp` / `hasNonWsp` -/
+theorem C_check_delim (m : Mem) (bs bw bn : Nat) (s : List UInt8) (h : MemBytes m bs (s ++ [0])) (hs : (0 : UInt8) ∉ s)
+    (hw : MemCell m bw) (hn : MemCell m bn) (d1 : bs ≠ bw) (d2 : bs ≠ bn) (d3 : bw ≠ bn) (fuel : Nat) (hf : s.length < fuel) :
+    ∃ m' loc', exec fuel LeafFns.check_delim.body { mem := m, loc := [.ptr bs 0, .ptr bw 0, .ptr bn 0, .undef] } =
+        .normal { mem := m', loc := loc' } ∧
+      MemBytes m' bw [b2u (Econf.hasWsp s)] ∧ MemBytes m' bn [b2u (Econf.hasNonWsp s)] ∧ MemBytes m' bs (s ++ [0]) := by
+  obtain ⟨m', loc', h1, h2, h3, h4, _, _⟩ := check_delim_exec m bs bw bn s h hs hw hn d1 d2 d3 fuel hf
+  have hf' : Econf.isSpace = spc := funext (fun c => (spc_eq c).symm)
+  refine ⟨m', loc', h1, ?_, ?_, h4⟩
+  · simpa [Econf.hasWsp, hf'] using h2
+  · simpa [Econf.hasNonWsp, hf'] using h3
 
 end Leaf
